@@ -36,9 +36,87 @@ impl KeyGen {
     }
 }
 
+fn numeral(mut v: u64) -> [u8; KEYLEN] {
+    let mut buf = [b'a'; KEYLEN];
+    for i in (0..KEYLEN).rev() {
+        buf[i] = SYMS[(v % 4) as usize];
+        v /= 4;
+    }
+    buf
+}
+
+struct NumStream {
+    i: u64,
+    n: u64,
+    step: u64,
+    buf: [u8; KEYLEN],
+}
+impl<'a> Streamer<'a> for NumStream {
+    type Item = (&'a [u8], u64);
+    fn next(&'a mut self) -> Option<(&'a [u8], u64)> {
+        if self.i >= self.n {
+            return None;
+        }
+        self.i += 1;
+        self.buf = numeral(self.i * self.step);
+        Some((&self.buf, self.i))
+    }
+}
+
+/// Bulk loads: extend_iter with an exact size hint, extend_stream, on map and set builders.
+fn c13_bulk(log: &mut Log, ns: &[usize]) {
+    for &(geo, gname) in &[(Some((64usize, 2usize)), "64x2"), (None, "default")] {
+        for &path in &["map_extend_iter", "set_extend_iter", "raw_extend_iter", "map_extend_stream"] {
+            for &n in ns.iter().filter(|&&n| n <= 1_000_000) {
+                let step = std::cmp::max(1, (16_000_000 / n) as u64);
+                fst::raw::verif::set_geometry(geo);
+                let snap = alloc::begin();
+                let (r, c) = match path {
+                    "map_extend_iter" => {
+                        let mut b = fst::MapBuilder::new(io::sink()).unwrap();
+                        let g = fst::raw::verif::last_geometry();
+                        b.extend_iter((1..=n as u64).map(|i| (numeral(i * step), i))).unwrap();
+                        let x = alloc::read(&snap);
+                        b.finish().unwrap();
+                        (x, g)
+                    }
+                    "set_extend_iter" => {
+                        let mut b = fst::SetBuilder::new(io::sink()).unwrap();
+                        let g = fst::raw::verif::last_geometry();
+                        b.extend_iter((1..=n as u64).map(|i| numeral(i * step))).unwrap();
+                        let x = alloc::read(&snap);
+                        b.finish().unwrap();
+                        (x, g)
+                    }
+                    "raw_extend_iter" => {
+                        let mut b = Builder::new(io::sink()).unwrap();
+                        let g = fst::raw::verif::last_geometry();
+                        b.extend_iter((1..=n as u64).map(|i| (numeral(i * step), fst::raw::Output::new(i)))).unwrap();
+                        let x = alloc::read(&snap);
+                        b.finish().unwrap();
+                        (x, g)
+                    }
+                    _ => {
+                        let mut b = fst::MapBuilder::new(io::sink()).unwrap();
+                        let g = fst::raw::verif::last_geometry();
+                        b.extend_stream(NumStream { i: 0, n: n as u64, step, buf: [b'a'; KEYLEN] }).unwrap();
+                        let x = alloc::read(&snap);
+                        b.finish().unwrap();
+                        (x, g)
+                    }
+                };
+                fst::raw::verif::set_geometry(None);
+                log.ev(json!({"ev": "Mem", "what": "build", "scenario": format!("build-{}-{}", path, gname), "n": n, "k": 1, "cells": c.0 * c.1,
+                              "maxFan": 4, "maxKeyLen": KEYLEN, "live": jn(r.0), "peak": jn(r.1), "allocs": jn(r.2)}));
+            }
+        }
+    }
+}
+
 pub fn c13(log: &mut Log, seed: u64, tier: &str) {
     let thorough = tier == "thorough";
     let ns: Vec<usize> = if thorough { vec![100_000, 1_000_000, 10_000_000] } else { vec![100_000, 1_000_000] };
+    c13_bulk(log, &ns);
     for &(geo, cells, gname) in &[(Some((64usize, 2usize)), 128usize, "64x2"), (None, 20000, "default")] {
         for &set in &[true, false] {
             // a second key family: every key is followed by an extension of itself, so final
@@ -215,6 +293,33 @@ pub fn c14(log: &mut Log, seed: u64, tier: &str) {
             let (_, peak, allocs) = alloc::read(&snap);
             drop(s);
             log.ev(json!({"ev": "Mem", "what": "search", "scenario": "search", "n": n, "k": 1, "maxKeyLen": KEYLEN, "peak": jn(peak), "allocs": jn(allocs), "items": items}));
+        }
+        // automata whose can_match turns false on nodes that still have transitions: keys without
+        // the byte 'b' (dies on every b), and a Levenshtein automaton
+        {
+            let mut cls = vec![1usize; 256];
+            cls[b'b' as usize] = 2;
+            let mut aut = TableAut { n: 2, start: 1, cls, delta: vec![vec![1, 2], vec![2, 2]], matches: vec![true, false], can: vec![true, true], always: vec![false, false] };
+            aut.exact_hints();
+            let snap = alloc::begin();
+            let mut s = f.search_with_state(&aut).into_stream();
+            let mut items = 0usize;
+            while let Some(_) = s.next() {
+                items += 1;
+            }
+            let (_, peak, allocs) = alloc::read(&snap);
+            drop(s);
+            log.ev(json!({"ev": "Mem", "what": "search", "scenario": "search-pruning", "n": n, "k": 1, "maxKeyLen": KEYLEN, "peak": jn(peak), "allocs": jn(allocs), "items": items}));
+            let lev = fst::automaton::Levenshtein::new("abcdabcdabcd", 2).unwrap();
+            let snap = alloc::begin();
+            let mut s = f.search(&lev).into_stream();
+            let mut items = 0usize;
+            while let Some(_) = s.next() {
+                items += 1;
+            }
+            let (_, peak, allocs) = alloc::read(&snap);
+            drop(s);
+            log.ev(json!({"ev": "Mem", "what": "search", "scenario": "search-levenshtein", "n": n, "k": 1, "maxKeyLen": KEYLEN, "peak": jn(peak), "allocs": jn(allocs), "items": items}));
         }
         // set operations over k FSTs of n/k keys each
         for &(k, shared) in &[(2usize, false), (4, false), (8, false), (2, true), (4, true), (3, true)] {
